@@ -5,7 +5,8 @@ import re
 import anchors
 import vlib
 
-RULE = ("a case is one schedule of harness-controlled events (subscribe_i with option tuple, cancel_i, upstream "
+RULE = ("a case is one schedule of harness-controlled events (subscribe_i with option tuple -- endpoint, sub-protocol, a header MULTIMAP "
+        "from a table of multi-valued / differently ordered / differently spelled / empty-valued variants, init payload --, cancel_i, upstream "
         "accept/reject/ack/init failure, per-id next/complete/error, foreign-id and junk-id frames, any frame of either "
         "sub-protocol's alphabet with/without id and payload, cancel of the dialler between ack and subscribe, drop, bad frame, idle "
         "tick), each followed by quiescence; distinct by the hash of its line; non-trivial when, per the model's state, a "
@@ -33,6 +34,16 @@ def anchors_c18():
             fields.append(f)
     if not fields:
         raise anchors.AnchorError("connKey reads no opts field")
+    # connKey, full body: endpoint NUL sub-protocol NUL Header.Write of the WHOLE multimap (every value of every name) NUL
+    # JSON of the init payload.  Anything that walks the header map itself, indexes a value list or uses Get / Values
+    # (a key over part of the multimap) does not match.
+    ck_whole = bool(re.fullmatch(
+        r"\{\s*h := pool\.Hash64\.Get\(\)\s*defer pool\.Hash64\.Put\(h\)\s*"
+        r"_, _ = h\.WriteString\(opts\.Endpoint\)\s*_, _ = h\.WriteString\(\"\\x00\"\)\s*"
+        r"_, _ = h\.WriteString\(string\(opts\.WSSubprotocol\)\)\s*_, _ = h\.WriteString\(\"\\x00\"\)\s*"
+        r"if len\(opts\.Headers\) > 0 \{\s*_ = opts\.Headers\.Write\(h\)\s*\}\s*_, _ = h\.WriteString\(\"\\x00\"\)\s*"
+        r"if len\(opts\.InitPayload\) > 0 \{\s*if data, err := json\.Marshal\(opts\.InitPayload\); err == nil \{\s*"
+        r"_, _ = h\.Write\(data\)\s*\}\s*\}\s*return h\.Sum64\(\)\s*\}", ck))
     god = anchors.func_body(src, "getOrDial")
     dial_own_ctx = bool(re.search(r"t\.dial\(ctx,\s*key,\s*opts\)", god))
     # a waiter never inherits an aborted result: own ctx error or getOrDial again, tested BEFORE result.err
@@ -140,6 +151,7 @@ def anchors_c18():
     txt = "(* GENERATED by tools/props/c18.py from /repo -- do not edit *)\n"
     txt += "From Gv Require Import lib.Bytes.\nOpen Scope N_scope.\n"
     txt += "Definition anchor_connkey_fields : list bytes := %s.\n" % anchors.coq_list(anchors.coq_bytes(f.encode()) for f in fields)
+    txt += "Definition anchor_connkey_whole_header_multimap : bool := %s.\n" % b(ck_whole)
     txt += "Definition anchor_dial_uses_caller_ctx : bool := %s.\n" % b(dial_own_ctx)
     txt += "Definition anchor_waiter_never_inherits_abort : bool := %s.\n" % b(waiter_no_abort)
     txt += "Definition anchor_book_before_publish : bool := %s.\n" % b(book_first)
@@ -153,6 +165,24 @@ def anchors_c18():
     txt += "Definition anchor_decode_tws : list (bytes * bytes) := %s.\n" % pairs(tws)
     txt += "Definition anchor_decode_gws : list (bytes * bytes) := %s.\n" % pairs(gws)
     return anchors.write_if_changed(os.path.join(vlib.COQ, "gen", "Anchors_C18.v"), txt)
+
+
+def _later_only(x):
+    """two subscribers whose option tuples differ only in the header multimap and agree on every name's first value"""
+    head = x.split("(sched")[0]
+    keys = re.findall(r"\(\d+ (\d+) (\d+) (\d+) (\d+)\)", head.split("(hdrs")[0])
+    rows = {}
+    for m in re.finditer(r"\((\d+) \d+((?: \(\d+(?: \d+)*\))*)\)", head.split("(hdrs")[-1]):
+        ents = re.findall(r"\((\d+)((?: \d+)*)\)", m.group(2))
+        rows[m.group(1)] = [(n, v.split()) for n, v in ents]
+    for a in range(len(keys)):
+        for b in range(a + 1, len(keys)):
+            ka, kb = keys[a], keys[b]
+            if ka[:2] == kb[:2] and ka[3] == kb[3] and ka[2] != kb[2] and ka[2] in rows and kb[2] in rows:
+                ra, rb = rows[ka[2]], rows[kb[2]]
+                if ra != rb and [(n, v[:1]) for n, v in ra] == [(n, v[:1]) for n, v in rb]:
+                    return True
+    return False
 
 
 def sched_head(case):
@@ -170,7 +200,8 @@ def run(chk, only_corpus=None):
         "Coq 8.16.1 kernel (coqc, full .vo build); vm_compute only in Examples and refutation witnesses",
         "extraction with ExtrOcamlBasic only; ocamlfind ocamlopt; ocaml/common/prelude.ml + ocaml/c18/driver.ml "
         "(maps harness events to model actions, runs the model's internal actions to quiescence, canonicalises each window)",
-        "tools/props/c18.py anchors (regex): fields hashed by connKey; getOrDial dials with the caller's ctx, a waiter tests "
+        "tools/props/c18.py anchors (regex): fields hashed by connKey and connKey's full body (endpoint, sub-protocol, Header.Write of "
+        "the whole header multimap, init payload JSON, NUL-separated); getOrDial dials with the caller's ctx, a waiter tests "
         "result.aborted before result.err (own ctx error or getOrDial again), aborted := err != nil && ctx.Err() != nil, the "
         "dialler leaves the dialing table before close(done); removeConn deletes by key; Subscribe starts over on "
         "ErrConnectionClosed; closeIfEmpty tests emptiness and CASes closed inside one subsMu section and is the only close "
@@ -181,7 +212,13 @@ def run(chk, only_corpus=None):
         "IntoClientMessage and IsTerminal (full-body match); the two decode switches as (type string, wire type) tables + arm shapes",
         "Spec.spec_class (what an upstream frame means: per-subscription / nobody's / protocol violation) is a hand-written reading of "
         "the two protocol documents and of the decoders; id-less frames are classified as nobody's because the code drops them",
-        "A-hash: connKey's 64-bit hash is modelled as the tuple itself (no collisions)",
+        "A-hash: connKey's 64-bit hash is modelled as the tuple itself (no collisions); the headers enter the model's key as the line "
+        "sequence Header.Write produces (every value of every name; hdr_lines) -- pinned by the full-body anchor on connKey; the harness "
+        "enumerates the map in sorted-name order as Header.Write does",
+        "harness: the upstream reports, per upgrade request, the identity it saw (every value of every X- name as net/http's server "
+        "parses them: names canonicalised, a name without values absent) as an index into the harness' header table; "
+        "spec:shared_iff_same_key compares it with the identity of the option tuple of every subscriber whose subscribe frame arrives on "
+        "that connection",
         "A-xid: xid.New() never repeats / is not guessable (wire ids are a counter; the upstream names only ids it was sent "
         "or ids nobody holds)",
         "A-fifo: TCP + coder/websocket deliver frames in order to the single read loop; an upstream frame is modelled at the "
@@ -271,7 +308,12 @@ def run(chk, only_corpus=None):
                 "conversion_made_connection_errors_delivered": sum(len(re.findall(r"\(dlv \d+ x ", x.split("(minus")[0])) for x in c),
                 "dialler_cancelled_between_ack_and_subscribe": sum(1 for x in c if re.search(r"\(w \(ack \d+\)[^w]*\(cancel ", x.split("(minus")[0])),
                 "sse_alphabet_events": sum(x.count("(sframe ") for x in c if x.startswith("(c18 sse")) // 2,
-                "two_keys": sum(1 for x in c if len(set(re.findall(r"\(\d+ (\d+ \d+ \d+ \d+)\)", x.split("(sched")[0]))) > 1),
+                "two_keys": sum(1 for x in c if len(set(re.findall(r"\(\d+ (\d+ \d+ \d+ \d+)\)", x.split("(hdrs")[0]))) > 1),
+                "with_multi_valued_header": sum(1 for x in c if re.search(r"\(\d+ \d+ (?:\(\d+(?: \d+)?\) )*\(\d+ \d+ \d+", x.split("(sched")[0].split("(hdrs")[-1])),
+                "header_variants_used(table index: schedules)": {
+                    h: n for h, n in sorted(((h, sum(1 for x in c if re.search(r"\(\d+ \d+ \d+ %d \d+\)" % h, x.split("(hdrs")[0]))) for h in range(1, 15)))
+                    if n},
+                "keys_equal_up_to_later_header_values": sum(1 for x in c if _later_only(x)),
                 "three_subscribers": sum(1 for x in c if "(sub 2 " in x.split("(wins")[0]),
                 "events_per_schedule_max": max((x.split("(wins")[0].count("(") - 3) for x in c) if c else 0,
                 "ret_ok": sum(x.split("(minus")[0].count(" ok)") for x in c),
